@@ -139,6 +139,8 @@ def check(run, repo, world):
 
     # ---- SetEventSchemes ---------------------------------------------------
     m, fn, _ = world.func(SEQ + ".SetEventSchemes")
+    fn = normalise(fn, world, SEQ, primitives=("check_bad_rsp",),
+                   aliases="params")
     F = SEQ + ".SetEventSchemes"
     cfg = gen_cfg(fn, F)
     ys = yields_of(cfg, world, SEQ)
@@ -147,6 +149,8 @@ def check(run, repo, world):
 
     # ---- query_input_value -------------------------------------------------
     m, fn, _ = world.func(SEQ + ".query_input_value")
+    fn = normalise(fn, world, SEQ, primitives=("check_bad_rsp",),
+                   aliases="params")
     F = SEQ + ".query_input_value"
     cfg = gen_cfg(fn, F)
     ys = yields_of(cfg, world, SEQ)
@@ -230,6 +234,40 @@ def _norm_width_guard(e, cfg, depth=0):
                 return frozenset([("boolcmp", "%s %s %d" % (
                     l.id, type(e.ops[0]).__name__, c))])
     return frozenset([("other", unparse(e))])
+
+
+def _byte_positions(e):
+    """{byte position: name} for an expression that places plain names at
+    byte positions with `|` / `+` and `<< 8k` / `* 256**k`; None if it is
+    not of that form."""
+    terms = []
+
+    def split(x):
+        if isinstance(x, ast.BinOp) and isinstance(x.op, (ast.BitOr,
+                                                          ast.Add)):
+            split(x.left)
+            split(x.right)
+        else:
+            terms.append(x)
+    split(e)
+    if len(terms) < 2:
+        return None
+    out = {}
+    for t in terms:
+        k = 0
+        if isinstance(t, ast.BinOp) and isinstance(
+                t.right, ast.Constant) and type(t.right.value) is int:
+            c = t.right.value
+            if isinstance(t.op, ast.LShift) and c % 8 == 0:
+                k, t = c // 8, t.left
+            elif isinstance(t.op, ast.Mult) and c in (256, 65536, 16777216):
+                k, t = {256: 1, 65536: 2, 16777216: 3}[c], t.left
+            else:
+                return None
+        if not isinstance(t, ast.Name) or k in out:
+            return None
+        out[k] = t.id
+    return out
 
 
 def _check_filters(run, world, mod, F, cfg, ys, fn, setter):
@@ -327,6 +365,42 @@ def _check_filters(run, world, mod, F, cfg, ys, fn, setter):
         for name in ("DTR0", "DTR1", "DTR2", "SetEventFilter"):
             run.ob("R-DTRSYM", "%s#has-%s" % (F, name), name in by,
                    "%s is never issued" % name, where(mod, fn))
+    # a missing / garbled answer to any of the read-back queries ends the
+    # sequence with None: from the "bad" edge of the check no further command
+    # is sent and no value is returned
+    for name in ("QueryEventFilterL", "QueryEventFilterM",
+                 "QueryEventFilterH"):
+        for y in by.get(name, []):
+            if not y.target:
+                continue
+            tests = [n for n in cfg.reachable if n.kind == "test" and
+                     isinstance(n.ast, ast.Call) and unparse(
+                         n.ast.func) == "check_bad_rsp" and n.ast.args and
+                     unparse(n.ast.args[0]) == y.target and
+                     _nearest_yield_before(n, ys) is y]
+            okb = bool(tests)
+            for tn in tests:
+                seen, stack = set(), [m for (l, m) in tn.succ if l == "T"]
+                while stack:
+                    n = stack.pop()
+                    if n.id in seen:
+                        continue
+                    seen.add(n.id)
+                    if any(n is y2.node for y2 in ys):
+                        okb = False
+                        break
+                    if n.kind == "stmt" and isinstance(n.ast, ast.Return):
+                        if not (n.ast.value is None or (isinstance(
+                                n.ast.value, ast.Constant) and
+                                n.ast.value.value is None)):
+                            okb = False
+                        continue
+                    stack += [m for (l, m) in n.succ if l != "exc"]
+            run.ob("R-DTRSYM", "%s#%s-bad-answer-ends" % (F, name), okb,
+                   "a missing or garbled answer to %s must end the sequence "
+                   "with None; here the sequence goes on and the byte is "
+                   "read as whatever the variable held (0)" % name,
+                   where(mod, y.node))
     for name in ("QueryEventFilterL", "QueryEventFilterM",
                  "QueryEventFilterH"):
         run.ob("R-DTRSYM", "%s#has-%s" % (F, name), name in by,
@@ -387,6 +461,18 @@ def _check_filters(run, world, mod, F, cfg, ys, fn, setter):
                         names = [unparse(x) for x in c.args[0].elts]
                         asm = (n, names if order.value == "little"
                                else names[::-1])
+            if asm is None:
+                # the same number written with shifts: lo | md << 8 | hi << 16
+                pos = _byte_positions(n.ast.value)
+                if pos is None:
+                    for c in _walk_no_nested(n.ast.value):
+                        if isinstance(c, ast.BinOp):
+                            pos = _byte_positions(c)
+                            if pos is not None and len(pos) == 3:
+                                break
+                            pos = None
+                if pos is not None and sorted(pos) == [0, 1, 2]:
+                    asm = (n, [pos[0], pos[1], pos[2]])
     run.ob("R-DTRSYM", F + "#reassembly", asm is not None and len(
         asm[1]) == 3, "no int.from_bytes((lo, md, hi), order) reassembly "
         "found in a return", where(mod, fn))
@@ -579,7 +665,9 @@ def _check_schemes(run, world, mod, F, cfg, ys, fn):
     # result: the QueryEventScheme answer is returned
     q = [y for y in ys if _short(_q(y)) == "QueryEventScheme"]
     rets = [unparse(n.ast.value) for n in cfg.reachable if n.kind == "stmt"
-            and isinstance(n.ast, ast.Return) and n.ast.value is not None]
+            and isinstance(n.ast, ast.Return) and n.ast.value is not None
+            and not (isinstance(n.ast.value, ast.Constant) and
+                     n.ast.value.value is None)]
     run.ob("R-DEVSEQ-ORDER", F + "#returns-readback",
            bool(q) and q[0].target is not None and rets == [q[0].target],
            "the sequence must return what the unit reports back",
